@@ -145,4 +145,34 @@ theorem C02_cex_string_int64_reads_number :
     (rt (typeOf id (fun _ => []) (.strNum .i64)) (.num 5 0)).isSome = true ∧ valid true (.strNum .i64) (.num 5 0) = false := by
   simp [rt, typeOf, valid, IntFmt.range]
 
+/-! ### string-keyed maps, and the container fragment to any depth -/
+
+/-- the property lifts through `additionalProperties: S` (typed `HashMap<String, T>`), whatever the value schema is, on
+documents whose objects have distinct keys (`J.wf`: what a JSON parser delivers) -/
+theorem C02_map_lift (fname : Str → Str) (vname : J → Str) (s : S) (hs : GoodWf fname vname s) :
+    GoodWf fname vname (.map s) := goodWf_map fname vname s hs
+
+/-- characterisation on the CONTAINER fragment — scalars of every width, arrays, string-keyed maps and nullable wrappers nested
+to any depth —: for every naming function and every well-formed document the property holds, or the document is in a listed
+class (on this fragment only `KnownNumericWidth` occurs) -/
+theorem C02_roundtrip_char_containers (fname : Str → Str) (vname : J → Str) (s : S) (h : frag2 s = true) (doc : J) (hw : doc.wf = true) :
+    judge s (typeOf fname vname s) doc = true ∨ classes fname vname s doc ≠ [] := by
+  by_cases hc : classes fname vname s doc = []
+  · exact Or.inl (goodWf_frag2 fname vname s h doc hw hc)
+  · exact Or.inr hc
+
+/-- the distinct-keys premise is needed: on a document with one key twice (no JSON parser delivers such an object) the
+member-wise comparison of the model fails although no class applies -/
+theorem C02_cex_duplicate_key :
+    judge (.map .str) (typeOf id (fun _ => []) (.map .str)) (.obj [("k".toList, .str "a".toList), ("k".toList, .str "b".toList)]) = false ∧
+    classes id (fun _ => []) (.map .str) (.obj [("k".toList, .str "a".toList), ("k".toList, .str "b".toList)]) = [] ∧
+    (J.obj [("k".toList, .str "a".toList), ("k".toList, .str "b".toList)]).wf = false := by decide
+
+/-- non-vacuity: a map of nullable arrays of int32 with a three-level document -/
+example : frag2 (.map (.nullable (.arr (.int (some .i32))))) = true ∧
+    (J.obj [("a".toList, .arr [.num 1 0, .num (-5) 0]), ("b".toList, .null), ("".toList, .arr [])]).wf = true ∧
+    classes id (fun _ => []) (.map (.nullable (.arr (.int (some .i32))))) (.obj [("a".toList, .arr [.num 1 0, .num (-5) 0]), ("b".toList, .null), ("".toList, .arr [])]) = [] ∧
+    judge (.map (.nullable (.arr (.int (some .i32))))) (typeOf id (fun _ => []) (.map (.nullable (.arr (.int (some .i32))))))
+      (.obj [("a".toList, .arr [.num 1 0, .num (-5) 0]), ("b".toList, .null), ("".toList, .arr [])]) = true := by decide
+
 end Oas3.Codec.C02
